@@ -231,7 +231,9 @@ class WritableVersion(dns.zone.WritableVersion):
         if self.zone.relativize:
             return name == dns.name.empty
         else:
-            return name == self.zone.origin
+            # Use the version's origin, as the zone's origin is not yet known in the
+            # transaction that loads a zone file whose origin comes from $ORIGIN.
+            return name == self.origin
 
     def _maybe_cow_with_name(
         self, name: dns.name.Name
